@@ -25,7 +25,7 @@ HARNESS = os.path.join(ROOT, "harness/c10/zz_verif_c10_test.go")
 PKG = "./internal/index/manager/"
 RUN = os.path.join(BUILD, "run", "c10")
 TAGDEFS = ['cdata:"a"', 'cdata:"bb"', 'cdata:"c"']
-GEN_VERSION = 3
+GEN_VERSION = 4
 KF_REFETCH = "view-refetch-empty"
 
 
@@ -49,34 +49,26 @@ def gen_scenario(rng, name, big=False):
             pk.append([f, rng.randint(1, 5)])
         caps.append(pk)
     script = []
-    n = rng.randint(8, 60 if big else 42)
+    n = rng.randint(8, 60 if big else 38)
     style = rng.random()
+    ops = ["import", "step", "view", "read", "release", "tagadd", "tagdel", "tagupd"]
+    if style < 0.25:      # merge-heavy: few tags, many steps
+        w = [0.22, 0.50, 0.12, 0.03, 0.09, 0.02, 0.01, 0.01]
+    elif style < 0.5:     # view-heavy
+        w = [0.18, 0.34, 0.22, 0.05, 0.13, 0.04, 0.02, 0.02]
+    elif style < 0.75:
+        w = [0.22, 0.40, 0.13, 0.04, 0.09, 0.06, 0.03, 0.03]
+    else:                 # tag-heavy: tags deleted / redefined while their tagging job is parked
+        w = [0.18, 0.36, 0.10, 0.02, 0.06, 0.10, 0.09, 0.09]
     for _ in range(n):
-        r = rng.random()
-        if style < 0.25:      # merge-heavy: few tags, many steps
-            w = [0.22, 0.50, 0.12, 0.04, 0.10, 0.02]
-        elif style < 0.5:     # view-heavy
-            w = [0.18, 0.34, 0.22, 0.06, 0.14, 0.06]
-        else:
-            w = [0.22, 0.40, 0.14, 0.05, 0.10, 0.09]
-        acc, k = 0.0, 0
-        for k, x in enumerate(w):
-            acc += x
-            if r < acc:
-                break
-        if k == 0:
+        k = rng.choices(ops, weights=w)[0]
+        if k == "import":
             script.append(["import", rng.choice([1, 1, 1, 2, 3])])
-        elif k == 1:
-            script.append(["step", rng.randrange(6)])
-        elif k == 2:
-            script.append(["view"])
-        elif k == 3:
-            script.append(["read", rng.randrange(6)])
-        elif k == 4:
-            script.append(["release", rng.randrange(6)])
+        elif k in ("step", "read", "release", "tagdel", "tagupd"):
+            script.append([k, rng.randrange(6)])
         else:
-            script.append(["tagadd"])
-    return {"name": name, "caps": caps, "script": script, "tags": TAGDEFS[:rng.randint(0, 3)], "probe": nflows + 2}
+            script.append([k])
+    return {"name": name, "caps": caps, "script": script, "tags": TAGDEFS[:rng.randint(0, 3)] if style < 0.75 else TAGDEFS, "probe": nflows + 2}
 
 
 def fixed_scenarios():
@@ -96,6 +88,14 @@ def fixed_scenarios():
     out.append({"name": "fix-queue-and-tag", "caps": [[[0, 2]], [[0, 1], [1, 1]], [[1, 3]], [[2, 2]]], "tags": ['cdata:"a"'], "probe": 5,
                 "script": [["import", 1], ["import", 1], ["import", 2], ["view"], ["job", "import"], ["job", "import"], ["tagadd"], ["view"],
                            ["job", "import"], ["job", "tag"], ["job", "import"], ["job", "tag"], ["view"]]})
+    # the tag of a parked tagging job is deleted / redefined: its result is discarded, its locks must still be released
+    out.append({"name": "fix-tag-deleted-under-job", "caps": [[[0, 3]], [[1, 2]], [[2, 1]], [[0, 1]]], "tags": ['cdata:"a"', 'cdata:"bb"'], "probe": 5,
+                "script": [["import", 1], ["job", "import"], ["job", "import"], ["tagadd"], ["job", "tag"], ["tagdel", 0], ["job", "tag"],
+                           ["import", 1], ["job", "import"], ["job", "import"], ["import", 1], ["job", "import"], ["job", "import"],
+                           ["job", "merge"], ["job", "merge"], ["view"], ["import", 1]]})
+    out.append({"name": "fix-tag-redefined-under-job", "caps": [[[0, 3]], [[1, 2]], [[2, 1]]], "tags": ['cdata:"a"'], "probe": 5,
+                "script": [["import", 1], ["job", "import"], ["job", "import"], ["tagadd"], ["tagupd", 0], ["job", "tag"], ["tagupd", 0], ["job", "tag"],
+                           ["job", "tag"], ["job", "tag"], ["import", 2], ["view"], ["job", "import"], ["tagdel", 0], ["job", "import"]]})
     # view opened on an empty service (shape of finding view-refetch-empty)
     out.append({"name": "fix-view-on-empty", "caps": [[[0, 3], [1, 2]], [[0, 1]]], "tags": [], "probe": 4,
                 "script": [["view"], ["import", 1], ["job", "import"], ["job", "import"], ["read", 0], ["import", 1], ["job", "import"], ["job", "import"]]})
@@ -451,6 +451,8 @@ def model_case_text(sc, trace):
             lines.append("%s %d" % (act[0], act[1]))
         elif act[0] == "tagadd":
             lines.append("tagadd")
+        elif act[0] in ("tagdel", "tagupd"):
+            lines.append("%s %d %d" % (act[0], int(act[2]), int(act[3])))
         elif act[0] in ("start", "complete"):
             lines.append("%s %s" % (act[0], act[1]))
         elif act[0] in ("init", "end"):
@@ -601,6 +603,8 @@ def history_features(sc, trace):
                 feat.add("view-opened-while-jobs-in-flight")
         if act[:2] == ["complete", "tag"]:
             feat.add("tag-job-completed")
+        if act[:1] in (["tagdel"], ["tagupd"]) and len(act) > 3 and act[3]:
+            feat.add("tag-of-parked-job-deleted-or-redefined")
     return feat
 
 
@@ -684,7 +688,7 @@ def build_scenarios(tier, seed):
             sc = dict(sc, name="corpus-%s-%s" % (d, os.path.basename(fn)[:-5]))
             scs.append(sc)
     scs += fixed_scenarios()
-    n = 140 if tier == "quick" else 2500
+    n = 110 if tier == "quick" else 2500
     for i in range(n):
         scs.append(gen_scenario(rng, "h%04d" % i, big=(tier != "quick" and i % 4 == 0)))
     if tier != "quick":
